@@ -438,3 +438,5 @@ fire("r2-vmap-accepts-both", "C13", B + "jax_transforms.py",
 
 fire("c03-numpyro-logdet-sign", "C03", "flowjax/experimental/numpyro.py", "                t_log_det = -t_log_det\n", "", "C03.numpyro")
 fire("c06-hidden-randomness", "C06", D, "        return jr.normal(key, self.shape)", "        import random\n        return jr.normal(key, self.shape) + random.random()", "C06.det")
+fire("c01-planar-inverse-denominator", "C01", B + "planar.py", "        denominator = 1 + self.weight @ us", "        denominator = 1 - self.weight @ us", "C01.planar")
+fire("c01-planar-inverse-slope-from-y", "C01", B + "planar.py", "        relu_slope = jnp.where(numerator < 0, self.negative_slope, 1)", "        relu_slope = jnp.where(self.weight @ y < 0, self.negative_slope, 1)", "C01.planar")
